@@ -90,6 +90,50 @@ def rule_view(ck, units):
             ck.ob('view-keeps-scalar', key, f.where(), sr == sp, '' if sr == sp else 'in %s: a vector of %s is viewed as blocks of %s: the storage is reinterpreted in the precision of the matrix' % (f.full[:100], sp, sr))
 
 
+def rule_view_extent(ck, units):
+    """view-extent: reinterpret_as_rhs_impl::get returns [ptr, ptr + n): the view must cover exactly the bytes of the source vector,
+    n * sizeof(*ptr) == x.size() * sizeof(element of x).  With n = x.size() * sizeof(S) / sizeof(D) this needs S = element type of the
+    vector and D = pointee type of ptr (canonical types, per instantiation; the mixed-precision views tell the candidates apart)."""
+    ck.rule('view-extent', 'backend::reinterpret_as_rhs: the element count of the returned view is size * sizeof(source element) / sizeof(pointee of the returned pointer) - '
+                           'the view covers the whole vector, no more, no less (canonical types per instantiation)', 2)
+    done = set()
+    for u in units.values():
+        for f in u.funcs:
+            if f.q != 'amgcl::backend::reinterpret_as_rhs_impl::get' or f.body is None or not f.params:
+                continue
+            ptr_t = None
+            for n in f.nodes.values():
+                if n['k'] == 'decl':
+                    for v in n['v']:
+                        t = u.type(f.decl(v['d']).get('ct'))
+                        if t.endswith('*'):
+                            ptr_t = t[:-1].replace('const ', '').strip()
+            pt = u.type(f.decl(f.params[0]).get('ct'))
+            divs = [n for n in f.nodes.values() if n['k'] == 'bin' and n['op'] == '/' and unwrap(n['y'])['k'] == 'sizeof']
+            if ptr_t is None or len(divs) != 1:
+                continue
+            key = 'reinterpret_as_rhs_impl::get|%s -> %s' % (pt.replace('const ', '').replace('&', '').strip(), ptr_t)
+            if key in done:
+                continue
+            done.add(key)
+            d = divs[0]
+            den = unwrap(d['y'])
+            den_t = u.type(den.get('ct')).replace('const ', '').strip() if den.get('ct') is not None else None
+            nums = [x for x in walk(d['x']) if x['k'] == 'sizeof']
+            num_t = u.type(nums[0].get('ct')).replace('const ', '').strip() if len(nums) == 1 and nums[0].get('ct') is not None else None
+            elem = None
+            m = re.search(r'(?:std::vector|amgcl::backend::numa_vector|amgcl::iterator_range)<(.*?)(?:, std::allocator<.*>)?>\s*&*$', pt.replace('const ', '').strip())
+            if m:
+                elem = m.group(1).strip().rstrip('*').strip()
+            det = ''
+            if den_t != ptr_t:
+                det = 'the element count divides by sizeof(%s) but the view is a range of %s: it covers %s%s' % (
+                    den_t, ptr_t, 'a different number of bytes than the whole vector', '')
+            elif elem is not None and num_t is not None and num_t != elem:
+                det = 'the byte size of the source is computed with sizeof(%s) but its elements are %s' % (num_t, elem)
+            ck.ob('view-extent', key, f.where(d), not det, det)
+
+
 def rule_witness(ck):
     """compile-fail witnesses: tus/type_witness.cpp holds one static_assert per identity of the value-type traits / backend mixing rules;
     the unit is compiled (syntax only) against the current /repo, a failing assertion is a violation of that witness"""
@@ -134,6 +178,7 @@ def main(tier):
     c07.conj_rule(ck, ipu)               # Eigen / static_matrix / complex blocks follow the same inner-product convention (shared with C07)
     rule_acc(ck, units)
     rule_view(ck, units)
+    rule_view_extent(ck, units)
     rule_witness(ck)
     ck.assumptions += ['that block, complex-adapter, hybrid-backend and scalar formulations have the same entries / solutions, and that the mixed-precision solver reaches 1e-8, is numerical and NOT decided']
     return ck.finish()
